@@ -54,6 +54,7 @@ type Op struct {
 	At         model.Path   `json:"at"`                   // entry point (empty: root)
 	SrcKind    string       `json:"src,omitempty"`        // json xml mnode
 	Interleave bool         `json:"interleave,omitempty"` // xml: list entries interleaved with their siblings
+	ViaRpc     bool         `json:"viarpc,omitempty"`     // root upsert delivered as the input of rpc zzin whose handler upserts it into the store
 	Tree       *model.Tree  `json:"tree,omitempty"`       // payload at a root/container/list-entry entry point
 	List       *model.ListT `json:"list,omitempty"`       // payload at a list entry point
 }
@@ -62,6 +63,9 @@ func (o Op) String() string {
 	s := o.Kind
 	if o.Into {
 		s += "-into"
+	}
+	if o.ViaRpc {
+		s += "-via-rpc-input"
 	}
 	s += " @" + o.At.String()
 	if o.SrcKind != "" {
@@ -250,6 +254,33 @@ func Exec(env *Env, st store.Store, o Op, ss *simnode.Session, hook ReaderHook) 
 	if o.Kind == "delete" {
 		opStart(ss)
 		res.Err = sel.Delete()
+		return
+	}
+	if o.ViaRpc {
+		if len(o.At) != 0 || o.Kind != "upsert" {
+			res.Err = fmt.Errorf("harness: via-rpc is for root upserts")
+			return
+		}
+		src, _, err := SourceNode(o, false, hook)
+		if err != nil {
+			res.Err = fmt.Errorf("source: %w", err)
+			res.SourceErr = true
+			return
+		}
+		if ss != nil {
+			src = ss.Wrap(src, "S", nil, "")
+		}
+		target := rootNode
+		handler := &nodeutil.Extend{Base: rootNode, OnAction: func(p node.Node, r node.ActionRequest) (node.Node, error) {
+			return nil, r.Input.UpsertInto(target)
+		}}
+		rsel, err := node.NewBrowser(env.Mod, handler).Root().Find("zzin")
+		if err != nil || rsel == nil {
+			res.Err = fmt.Errorf("harness: rpc zzin not found: %v", err)
+			return
+		}
+		opStart(ss)
+		_, res.Err = rsel.Action(src)
 		return
 	}
 	src, _, err := SourceNode(o, o.Kind == "replace", hook)
